@@ -24,14 +24,16 @@ def main():
     harness = os.path.join(work, "harness")
     shutil.copytree(os.path.join(ROOT, "harness"), harness, ignore=shutil.ignore_patterns("target"))
     ct = os.path.join(harness, "Cargo.toml")
-    open(ct, "w").write(open(ct).read().replace('path = "/repo"', 'path = "%s"' % repo))
+    text = open(ct).read().replace('path = "/repo"', 'path = "%s"' % repo)
+    open(ct, "w").write(text)
     env = dict(os.environ, VERIF_HARNESS_DIR=harness, VERIF_TARGET_DIR="/tmp/seedtest_target",
                VERIF_OUT_DIR=os.path.join(work, "out"), VERIF_TAG="seed_%s_" % name)
     p = subprocess.run([os.path.join(ROOT, "check"), prop, tier], env=env, stdout=subprocess.PIPE, stderr=subprocess.STDOUT, text=True)
     out = p.stdout
     viol = [l for l in out.split("\n") if l.startswith("VIOLATION")]
     print(out[-3000:])
-    res = {"seed": name, "property": prop, "tier": tier, "exit": p.returncode, "violation_lines": viol[:5], "caught": bool(viol) and p.returncode == 1}
+    res = {"seed": name, "property": prop, "tier": tier, "exit": p.returncode, "violation_lines": viol[:5], "caught": bool(viol) and p.returncode == 1 and "harness build FAILED" not in out,
+           "concrete_input": any("no-failing-input-found" not in l for l in viol)}
     print(json.dumps(res))
     json.dump(res, open(os.path.join(seed, "result_%s_%s.json" % (prop, tier)), "w"), indent=1)
     shutil.rmtree(work, ignore_errors=True)
